@@ -162,7 +162,8 @@ class TLCResult:
             self.coverage[m.group(1)] = self.coverage.get(m.group(1), 0) + int(m.group(4))
 
     def tail(self, n=40):
-        return "\n".join(self.out.splitlines()[-n:])
+        keep = [l for l in self.out.splitlines() if not re.match(r"^\s*\|*line \d+|^<\w+ line|^\s*\|+", l) and not l.startswith('"')]
+        return "\n".join(keep[-n:])
 
 
 def run_tlc(module: str, cfg: str | None = None, *, workers: int | str = NCPU, env: dict | None = None,
@@ -173,7 +174,7 @@ def run_tlc(module: str, cfg: str | None = None, *, workers: int | str = NCPU, e
     property violation; raises MachineryError on crashes / parse errors / timeouts."""
     cwd = cwd or SPEC
     with scratch("tlcmeta-") as meta:
-        cmd = ["java", "-XX:+UseParallelGC", f"-Xmx{heap}"]
+        cmd = ["java", "-XX:+UseParallelGC", f"-Xmx{heap}", "-Xss32m"]
         if dfs:
             cmd.append("-Dtlc2.tool.queue.IStateQueue=StateDeque")
         cmd += ["-cp", TLA_CP, "tlc2.TLC", "-workers", str(workers), "-metadir", str(meta),
